@@ -114,7 +114,7 @@ POOL = ["200", "204", "301", "400", "401", "404", "409", "418", "422", "429", "4
         "600", "default", "0404", "4XX", "", "100", "399", "1000", "05"]
 CODES = ["200", "204", "301", "400", "401", "404", "409", "418", "422", "429", "499", "500", "501", "503", "599",
          "600", "default"]
-CLIENTS = ["client_a", "client_b", "zeta", "Alpha"]
+CLIENTS = ["client_a", "client_b", "zeta", "Alpha", "v1.api", "v2.api"]
 NAMES = ["zzc11_a", "zzc11_b", "core", "x", "y", "z", "pkg"]
 HAND_LAYOUTS = [("/", "/"), ("/", "/core"), ("/", "/a/core"), ("/", "/a/b/core"), ("/zzc11_a", "/zzc11_a"),
                 ("/zzc11_a", "/"), ("/zzc11_a/x", "/zzc11_a"), (None, "/zzc11_a/core"), ("", "/zzc11_a/core"),
@@ -296,9 +296,9 @@ def run(seed: int, scale: float, driver: str) -> dict:
 
 # ---------------------------------------------------------------------------------------------- oracle
 
-ORACLE_STATUSES = [400, 401, 404, 409, 422, 429, 500, 503]
+ORACLE_STATUSES = [400, 401, 404, 409, 422, 429, 500, 501, 503]
 CORE_BY_DEPTH = {1: "core", 2: "shared.core", 3: "a.b.core", 4: "x.y.z.core"}
-ORACLE_CLIENTS = ["client_a", "client_b", "client_c", "client_d"]
+ORACLE_CLIENTS = ["client_a", "client_b", "client_c", "v1.api", "v2.api"]
 CLS_DEEP = "deep-shared-core-bypasses-registry"
 CLS_SHALLOW = "shared-core-regression"
 
@@ -362,7 +362,7 @@ def _run_oracle_case(case: dict, scratch: str, pool: ThreadPoolExecutor, stop_at
                 info["nonforce_refused"] += 1  # diff check refuses to touch existing output: nothing was written
             else:
                 info["generation_errors"] += 1
-        generated = sorted(c for c in ORACLE_CLIENTS if os.path.isdir(os.path.join(root, c)))
+        generated = sorted(c for c in ORACLE_CLIENTS if os.path.isdir(os.path.join(root, *c.split("."))))
         results = list(pool.map(lambda c: (c, *_import_client(root, c)), generated))
         for c, ok, msg in results:
             evaluations += 1
@@ -410,7 +410,7 @@ def _oracle_cases(seed: int, scale: float) -> list:
             order.append(rng.choice(clients))
         seen = set()
         for c in order:
-            codes = sorted(rng.sample(ORACLE_STATUSES, rng.randint(1, 3)))
+            codes = sorted(rng.sample(ORACLE_STATUSES, rng.randint(0, 3)))
             steps.append({"client": c, "codes": codes, "force": (c not in seen and rng.random() < 0.5)
                           or rng.random() < 0.7, "ops": rng.randint(1, 2)})
             seen.add(c)
